@@ -266,7 +266,12 @@ impl<'a> G<'a> {
                 E::Record { ty: "R".into(), case: None, fields, spread: spread_from.map(|s| Box::new(E::Id(s))) }
             }
             3 => E::Record { ty: "V".into(), case: Some("A".into()), fields: vec![("x".into(), self.int_expr(2)), ("y".into(), self.bytes_expr(1))], spread: None },
-            4 => E::Record { ty: "V".into(), case: Some("B".into()), fields: vec![], spread: None },
+            4 => match self.r.below(3) {
+                // a variant whose third case carries the name the parser gives to a record's only case
+                0 => E::Record { ty: "W".into(), case: Some("Default".into()), fields: vec![("weight".into(), self.int_expr(1)), ("mark".into(), self.bytes_expr(0))], spread: None },
+                1 => E::Record { ty: "W".into(), case: Some("High".into()), fields: vec![("boost".into(), self.int_expr(1))], spread: None },
+                _ => E::Record { ty: "V".into(), case: Some("B".into()), fields: vec![], spread: None },
+            },
             5 => E::List((0..self.r.below(4)).map(|_| self.int_expr(1)).collect()),
             6 => E::Map((0..1 + self.r.below(3)).map(|k| (E::Num(k as i64), self.bytes_expr(0))).collect()),
             7 => E::Unit,
@@ -324,6 +329,15 @@ pub fn gen(r: &mut Rng) -> (Program, World) {
         name: "V".into(),
         record: false,
         cases: vec![CaseDef { name: "A".into(), fields: vec![("x".into(), Ty::Int), ("y".into(), Ty::Bytes)] }, CaseDef { name: "B".into(), fields: vec![] }],
+    });
+    p.types.push(TypeDef {
+        name: "W".into(),
+        record: false,
+        cases: vec![
+            CaseDef { name: "Low".into(), fields: vec![] },
+            CaseDef { name: "High".into(), fields: vec![("boost".into(), Ty::Int)] },
+            CaseDef { name: "Default".into(), fields: vec![("weight".into(), Ty::Int), ("mark".into(), Ty::Bytes)] },
+        ],
     });
 
     let mut t = TxDef { name: "t".into(), ..Default::default() };
